@@ -231,7 +231,24 @@ class PrimKind(Kind):
             M = np.array(o.primitive.transform)
             M[:3, 3] += [1, 1, 0]
             o.primitive.transform = M
-        param = [("primitive.transform=", transform)]
+        def transform_inplace(o):
+            o.primitive.transform[:3, 3] += [0.5, 0.0, 1.5]
+
+        def scale2(o):
+            o.apply_scale(2.0)
+
+        def scale_transform(o):
+            M = np.eye(4) * 1.5
+            M[3, 3] = 1.0
+            M[:3, 3] = [1, 0, 2]
+            o.apply_transform(M)
+        param = [("primitive.transform=", transform), ("primitive.transform[:3,3]+=", transform_inplace)]
+        if w != "extrusion":
+            param += [("apply_scale", scale2), ("apply_transform(similarity)", scale_transform)]
+        if w == "box":
+            def extents_inplace(o):
+                o.primitive.extents[1] *= 3.0
+            param.append(("primitive.extents[1]*=", extents_inplace))
         if w in ("sphere", "cylinder", "capsule"):
             param.append(("primitive.radius=", radius))
         if w in ("cylinder", "capsule", "extrusion"):
